@@ -5,7 +5,8 @@
    the as-built alternative). *)
 EXTENDS GatewayHost, Json
 CONSTANTS Devs,      \* open deviations (as-built alternative printed for them)
-          Block      \* "ids" : every identifier x namespace x host form x relevant configuration
+          Blocks     \* subset of {"ids", "rest"}:
+                     \* "ids" : every identifier x namespace x host form x relevant configuration
                      \* "rest": representative identifiers x remainders x queries x port x wildcard host
 
 RECURSIVE Rep(_, _)
@@ -42,23 +43,23 @@ RestIds == {ir \in IdRecs : \/ ir.id \in {Cid(0, "pb", "b58", "s1"), Cid(1, "raw
 SegsAll == {<<>>, <<"">>, <<"a", "b c">>, <<"d?e", "">>}
 QAll    == {"", "q=1", "a=b%20c&d=%2F"}
 
-VARIABLES pc, cfg, req
-vars == <<pc, cfg, req>>
+VARIABLES pc, Block, cfg, req
+vars == <<pc, Block, cfg, req>>
 Cfg0 == [wild |-> FALSE, sub |-> FALSE, inl |-> FALSE, gwnodl |-> FALSE, paths |-> "both", nodl |-> FALSE]
 Req0 == [hf |-> "gw", xfh |-> FALSE, port |-> FALSE, https |-> FALSE, ns |-> "ipfs", id |-> NoId, segs |-> <<>>, q |-> "", recs |-> {}]
-Init == pc = 0 /\ cfg = Cfg0 /\ req = Req0
+Init == pc = 0 /\ Block \in Blocks /\ cfg = Cfg0 /\ req = Req0
 
 HostFormOK(hf, id) == CASE hf = "gw"  -> TRUE
                         [] hf = "sub" -> id.k # "dns" \/ HostSafe(id.name)
                         [] OTHER      -> id.k = "dns" /\ HasDot(id.name) /\ HostSafe(id.name)
 
-Pick1 == /\ pc = 0 /\ pc' = 1 /\ cfg' = cfg
+Pick1 == /\ pc = 0 /\ pc' = 1 /\ cfg' = cfg /\ Block' = Block
          /\ \E ir \in (IF Block = "ids" THEN IdRecs ELSE RestIds), hf \in {"gw", "sub", "other"},
                ns \in (IF Block = "ids" THEN {"ipfs", "ipns", "foo"} ELSE {"ipfs", "ipns"}) :
               /\ HostFormOK(hf, ir.id)
               /\ hf = "other" => ns = "ipfs"                    \* the namespace is not part of that request
               /\ req' = [req EXCEPT !.hf = hf, !.ns = ns, !.id = ir.id, !.recs = ir.recs]
-Pick2 == /\ pc = 1 /\ pc' = 2
+Pick2 == /\ pc = 1 /\ pc' = 2 /\ Block' = Block
          /\ \E https \in BOOLEAN, xfh \in BOOLEAN, sub \in BOOLEAN, inl \in BOOLEAN,
                paths \in (IF Block = "ids" THEN {"both", "ipfs"} ELSE {"both"}), nodl \in BOOLEAN,
                segs \in (IF Block = "ids" THEN {<<"a", "b c">>} ELSE SegsAll),
@@ -79,8 +80,9 @@ Chosen == pc = 2
 PropertyHolds == Chosen => Property(cfg, req, {})
 \* every difference of the as-built routing is attributed to a named deviation
 DiffIsAttributed == Chosen => (Full(cfg, req, AllDevs) # Full(cfg, req, {}) => Fired(cfg, req, AllDevs) # {})
-\* used by the sanity configuration: the property detects the as-built deviations
-PropertyHoldsAsBuilt == Chosen => Property(cfg, req, AllDevs)
+\* the property is sensitive to every occurrence of a deviation: wherever one matters, the as-built
+\* outcome violates the property (the invariants above are not vacuous)
+DevsDetected == Chosen => (Fired(cfg, req, AllDevs) # {} => ~Property(cfg, req, AllDevs))
 
 \* ---- phase G
 RECURSIVE SeqOf(_)
